@@ -4,6 +4,7 @@ package vh
 
 import (
 	"crypto/sha256"
+	"flag"
 	"encoding/hex"
 	"encoding/json"
 	"fmt"
@@ -30,6 +31,8 @@ type Ctx struct {
 	Dist     map[string]int
 	Failures []Failure
 	Extra    map[string]any
+	Replay   string // path given with -replay (a replay file written by an earlier run), or ""
+	oracle   map[int]map[string]any
 	mu       sync.Mutex
 }
 
@@ -64,6 +67,19 @@ func (c *Ctx) Case(kind, coq, key string, nontrivial bool, sample any) {
 	if sample != nil && len(c.Samples) < 6 && c.Dist[kind] <= 1 {
 		c.Samples = append(c.Samples, sample)
 	}
+}
+
+// OracleCase records a case whose Coq `check` is the property's own oracle applied to what the
+// implementation produced (not a model/implementation comparison). When the check fails the driver reports
+// it as a concrete failing input under `key` (matched against KNOWN_FINDINGS.txt), with `input` as the replay.
+func (c *Ctx) OracleCase(kind, coq, key, what string, input any, nontrivial bool) {
+	c.mu.Lock()
+	if c.oracle == nil {
+		c.oracle = map[int]map[string]any{}
+	}
+	c.oracle[len(c.cases)] = map[string]any{"key": key, "what": what, "input": input}
+	c.mu.Unlock()
+	c.Case(kind, coq, key+"|"+coq, nontrivial, nil)
 }
 
 func (c *Ctx) Count(k string) { c.mu.Lock(); c.Dist[k]++; c.mu.Unlock() }
@@ -108,6 +124,13 @@ func (c *Ctx) Finish() {
 		"property": c.Prop, "seed": c.Seed, "tier": c.Tier,
 		"evaluations": len(c.cases), "distinct": len(c.keys), "distinct_nontrivial": len(c.nontriv),
 		"shards": nsh, "samples": c.Samples, "distribution": c.Dist, "failures": c.Failures, "extra": c.Extra,
+	}
+	if c.oracle != nil {
+		oi := map[string]any{}
+		for k, v := range c.oracle {
+			oi[fmt.Sprint(k)] = v
+		}
+		st["oracle_idx"] = oi
 	}
 	b, _ := json.MarshalIndent(st, "", " ")
 	os.WriteFile(filepath.Join(c.Out, "stats.json"), b, 0o644)
@@ -188,3 +211,34 @@ func SortedKeys(m map[string]int) []string {
 }
 
 func NewRand(seed int64) *rand.Rand { return rand.New(rand.NewSource(seed)) }
+
+// Main is the entry point of a per-property runner package:
+//   func main() { vh.Main(map[string]vh.Suite{"C17": {"Corr.C17Corr", run}, "C17race": {...}}) }
+type Suite struct {
+	Corr string
+	Run  func(*Ctx)
+}
+
+func Main(suites map[string]Suite) {
+	if len(os.Args) < 2 {
+		fmt.Println("usage: runner <suite> -seed S -n N -tier T -out DIR [-replay FILE]")
+		os.Exit(2)
+	}
+	name := os.Args[1]
+	fs := flag.NewFlagSet("runner", flag.ExitOnError)
+	seed := fs.Int64("seed", 1, "")
+	n := fs.Int("n", 200, "")
+	tier := fs.String("tier", "quick", "")
+	out := fs.String("out", "", "")
+	replay := fs.String("replay", "", "")
+	fs.Parse(os.Args[2:])
+	s, ok := suites[name]
+	if !ok {
+		fmt.Println("unknown suite", name)
+		os.Exit(2)
+	}
+	c := New(name, s.Corr, *seed, *n, *tier, *out)
+	c.Replay = *replay
+	s.Run(c)
+	c.Finish()
+}
